@@ -140,6 +140,21 @@ Definition sp_tag (v11 : bool) (rows : list (list decl)) (pfx : name) (atts : li
      negb (has_dup (combine ans (map spa_loc atts)))
   then Some (e, ans) else None.
 
+(** a whole document as a sequence of tags: what must be reported for each start tag, in order, up to the first tag that
+    violates a namespace constraint ([true] = there is one) *)
+Inductive sp_tok := SpStart (pfx : name) (atts : list sp_attr) (empty : bool) | SpEnd | SpOther.
+Fixpoint sp_doc (v11 : bool) (ts : list sp_tok) (rows : list (list decl)) : list (nsres * list nsres) * bool :=
+  match ts with
+  | [] => ([], false)
+  | SpStart pfx atts empty :: r =>
+    match sp_tag v11 rows pfx atts with
+    | None => ([], true)
+    | Some res => let (l, bad) := sp_doc v11 r (if empty then rows else sp_decls atts :: rows) in (res :: l, bad)
+    end
+  | SpEnd :: r => sp_doc v11 r (tl rows)
+  | SpOther :: r => sp_doc v11 r rows
+  end.
+
 (** answers the DOM lookups must give on a node whose enclosing declarations are [rows] *)
 Definition sp_lookup_ns (rows : list (list decl)) (p : option name) : option name :=
   match p with None => inscope rows [] | Some q => inscope rows q end.
